@@ -148,6 +148,7 @@ class Events:
     tids: dict = {}
     installed = False
     orig: Any = None
+    mutex = threading.Lock()
 
     @classmethod
     def tid(cls) -> int:
@@ -161,19 +162,26 @@ class Events:
         d = XsdGlobals.__dict__['_built']
         cls.orig = d
 
+        # the access and its log entry are made atomic with respect to the other logged accesses, so that
+        # the log order is a real linearisation order also in free-running mode
         def get(self):
-            v = d.__get__(self, XsdGlobals)
             if self is cls.target:
                 t = cls.tid()
                 if t >= 0:
-                    cls.log.append([t, 'read', bool(v)])
-            return v
+                    with cls.mutex:
+                        v = d.__get__(self, XsdGlobals)
+                        cls.log.append([t, 'read', bool(v)])
+                    return v
+            return d.__get__(self, XsdGlobals)
 
         def set_(self, v):
             if self is cls.target:
                 t = cls.tid()
                 if t >= 0:
-                    cls.log.append([t, 'write', bool(v)])
+                    with cls.mutex:
+                        cls.log.append([t, 'write', bool(v)])
+                        d.__set__(self, v)
+                    return
             d.__set__(self, v)
         XsdGlobals._built = property(get, set_)
         cls.installed = True
